@@ -192,6 +192,17 @@ Section WithIp.
       let '(asked, st2) := probe_and_update st1 domain has_resolvers ans in (o, asked, st2)
     else (o, false, st1).
 
+  (* chooseProxyDialer as far as outbound and dial target go; route_to = the outbound c.Route returns *)
+  Definition choose_proxy_dialer (mode : dial_mode) (st : cp_state) (outbound route_to : N) (dst : dest)
+             (domain key_a key_aaaa : str) (has_resolvers : bool) (ans : probe_answer)
+    : outcome * N * bool * cp_state :=
+    let '(o1, asked1, st1) := choose_step mode st outbound dst domain key_a key_aaaa has_resolvers ans in
+    let ob1 := if o_reroute o1 then outbound_control_plane_routing else outbound in
+    if (ob1 =? outbound_control_plane_routing)%N then
+      let '(o2, asked2, st2) := choose_step mode st1 route_to dst domain key_a key_aaaa has_resolvers ans in
+      (o2, route_to, asked1 || asked2, st2)
+    else (o1, outbound, asked1, st1).
+
   Inductive op :=
   | OpRemember (key : str) (expires : Z)          (* a DNS answer for base key `key` entered the cache *)
   | OpAdvance (dt : Z)                            (* time passes (dt >= 0) *)
